@@ -460,7 +460,8 @@ func (c *Chain) Project() State {
 		if d, err := sdk.NewDecFromStr(v); err == nil && d.IsZero() {
 			s.Vol = "0"
 		} else {
-			s.Vol = v + "@" + c.renameAll(who)
+			_ = who
+			s.Vol = v
 		}
 	}
 	sort.Strings(s.Inexact)
